@@ -87,6 +87,12 @@ def parse_template(path: str):
         elif s.startswith("//@ H "):
             pending = parse_kv(s[6:])
             unit["module"].append(lines[i])
+            if "name" in pending:
+                pending.setdefault("kind", "bounded")
+                pending.setdefault("tier", "quick")
+                pending.setdefault("timeout", "600")
+                unit["harnesses"].append(pending)
+                pending = None
         else:
             if pending is not None:
                 m = re.match(r"\s*(pub\s+)?fn\s+([A-Za-z_][A-Za-z0-9_]*)\s*\(", lines[i])
